@@ -3,6 +3,7 @@ import XtModel.Props.C07
 import XtModel.Props.C09
 import XtModel.Props.C11
 import XtModel.Props.Json
+import XtModel.Props.C18
 
 /-!
 # C04 — Totality: no panic, abort, stack overflow or hang on any input
@@ -56,5 +57,8 @@ theorem detect_total (m j y t : Xt.Detect.Trial) :
 #print axioms Xt.Props.C03.trim_never_drainRange
 #print axioms Xt.Props.C11.no_panic_transcode
 #print axioms Xt.Props.Json.json_depth_boundary
+
+#print axioms Xt.Props.C18.no_panic_msgsize
+#print axioms Xt.Props.C18.recursion_bounded
 
 end Xt.Props.C04
